@@ -30,7 +30,9 @@ def concretise(A, neg_radius=False):
     end = lat_point(A, A['th'] + A['dl'])
     rad = complex(A['r'][0], A['r'][1])
     if neg_radius:
-        rad = complex(-A['r'][0], -A['r'][1])
+        # "negative values of rx, ry: take the absolute value" - either radius, or both, independently
+        k = (A['th'] + A['dl'] + A['phi']) % 3
+        rad = complex(-A['r'][0] if k != 1 else A['r'][0], -A['r'][1] if k != 2 else A['r'][1])
     return sp.Arc(start, rad, UNIT * A['phi'], fa, fs, end)
 
 
